@@ -10,7 +10,7 @@ import (
 )
 
 func init() {
-	probeNames["C08"] = []string{"fault_in_commit", "fault_in_data_write", "fault_in_header_write", "fault_in_first_sync", "fault_in_final_sync", "fault_outside_commit", "fault_during_open", "commit_failed", "commit_ok", "liveness_checked", "liveness_second_attempt", "durability_checked", "final_state_is_later_attempt", "short_write", "burst_spans_transactions", "reopen_with_maxsize_update", "shrink_release_under_fault"}
+	probeNames["C08"] = []string{"fault_in_commit", "fault_in_data_write", "fault_in_header_write", "fault_in_first_sync", "fault_in_final_sync", "fault_outside_commit", "fault_during_open", "commit_failed", "commit_ok", "liveness_checked", "liveness_second_attempt", "durability_checked", "final_state_is_later_attempt", "short_write", "burst_spans_transactions", "reopen_with_maxsize_update", "shrink_release_under_fault", "stale_flush_write_failed_late"}
 	register(&PropDef{
 		ID: "C08", Level: "fault_enumeration", QuickSec: 55, ThoroSec: 1200,
 		Rule: "each run = one seeded txops history (<=10 transactions, incl. reopen) with a fault plan aimed at the I/O calls a fault-free dry run of the same seed performs: kind in {write error before effect, short write then error, sync error, truncate error, size error, mmap error, read error at open} x call index x burst in {1,2,3,until end of transaction}; a fault-free configuration of every seed runs first with the strict oracle. Oracles: no panic, no hang (scheduler deadlock detection), after every transaction a fresh read transaction sees exactly the last successfully committed model state, a commit that reported success is durable (durable-only image reopens to it), a commit during which one of its writes/syncs failed does not report success, once faults stopped a write transaction commits within 2 attempts, and after clean close+reopen the state is the last committed one or the complete state of a later attempt whose header write was issued. Non-trivial = at least one fault actually fired inside a transaction or an open; distinct = op list + fault plan + config + schedule hash.",
@@ -160,6 +160,8 @@ func c08Body(e *Env) {
 	var laterAttempts []*State // attempted states of failed commits whose header write was issued, since the last successful commit
 	firedAtBegin := 0
 	lastCommitEnd := 0 // op-log index at which the most recent commit attempt returned
+	staleFlushSince := -1 // op-log index since which writes of a rolled back Flush may be queued
+	txFlushed, txFlushStart := false, 0
 	r.OnCommitResult = func(rec *CommitRec, err error) {
 		defer func() { lastCommitEnd = len(d.Log) }()
 		firedIn := 0
@@ -236,6 +238,21 @@ func c08Body(e *Env) {
 				deferredPlausible = true
 			}
 		}
+		// Writes queued by Tx.Flush/Page.Flush of a transaction that was rolled back
+		// stay in the writer's queue and may be executed (and fail) much later, also
+		// while a later commit attempt is running that fails early for another
+		// reason and has no failed write of its own to wait for: that attempt does
+		// not reset the writer's error. Such a failed write is outstanding until a
+		// commit succeeds.
+		if staleFlushSince >= 0 {
+			for i := staleFlushSince; i < len(d.Log); i++ {
+				if op := &d.Log[i]; op.Err && op.Kind == simdisk.OpWrite {
+					deferredPlausible = true
+					e.Probe("stale_flush_write_failed_late")
+				}
+			}
+		}
+		lastCommitEndBefore := lastCommitEnd
 		for attempt := 1; attempt <= 2; attempt++ {
 			var err error
 			var tx *txfile.Tx
@@ -252,6 +269,7 @@ func c08Body(e *Env) {
 			}
 			if err == nil {
 				lastCommitEnd = len(d.Log)
+				staleFlushSince = -1
 				e.Probe("liveness_checked")
 				if attempt == 2 {
 					e.Probe("liveness_second_attempt")
@@ -263,7 +281,13 @@ func c08Body(e *Env) {
 			}
 			lastCommitEnd = len(d.Log)
 			if attempt == 1 && !deferredPlausible {
-				e.Fail("C08", "not-live", "%s: all faults stopped and no asynchronous write error is outstanding, but an empty write transaction failed to commit: %v", when, err)
+				var errs []string
+				for i := range d.Log {
+					if op := &d.Log[i]; op.Err {
+						errs = append(errs, fmt.Sprintf("#%d %v off=%d", i, op.Kind, op.Off))
+					}
+				}
+				e.Fail("C08", "not-live", "%s: all faults stopped and no asynchronous write error is outstanding, but an empty write transaction failed to commit: %+v (failed I/O calls so far: %v; last commit attempt ended at I/O #%d)", when, err, errs, lastCommitEndBefore)
 				return
 			}
 			if attempt == 2 {
@@ -408,7 +432,15 @@ func c08Body(e *Env) {
 		switch op.K {
 		case "begin":
 			firedAtBegin = firedTotal()
+			txFlushed, txFlushStart = false, len(d.Log)
+		case "pflush", "txflush":
+			txFlushed = true
 		case "commit", "rollback", "closetx":
+			if r.LastEnd == "commit-ok" {
+				staleFlushSince = -1
+			} else if txFlushed && op.K != "commit" && staleFlushSince < 0 {
+				staleFlushSince = txFlushStart
+			}
 			if firedTotal() > firedAtBegin {
 				e.Res.Nontrivial = true
 				burstSpan++
